@@ -232,6 +232,40 @@ def run_case(case):
                                ref=ref.tolist() if ref.size < 8 else None)
                             ok(idx.dtype in (torch.int64, torch.int32), "searchsorted", "utils.searchsorted dtype")
                             r.cell("searchsorted", K, len(lead), "knot" if pi <= K else "interior", lname)
+        # edges and inputs of different floating dtypes: the comparison has to happen in the wider type, an input a hair below
+        # an edge (not representable in the narrower type) belongs to the bin on the left
+        for e_dt, x_dt in ((torch.float32, torch.float64), (torch.float64, torch.float32)):
+            for K in (1, 2, 4, 8):
+                for scale, shift in ((1.0, 0.0), (6.0, -3.0), (100.0, -50.0)):
+                    w = rng.random(K) + 0.05
+                    loc = np.concatenate([[0.0], np.cumsum(w)])
+                    loc = loc / loc[-1] * scale + shift
+                    loc_t = torch.from_numpy(loc).to(e_dt)
+                    locn = _np(loc_t).astype(np.float64)
+                    pts = []
+                    for i in range(K + 1):
+                        k = locn[i]
+                        pts += [k, (k + locn[min(i + 1, K)]) / 2]
+                        if x_dt == torch.float64:
+                            pts += [np.nextafter(k, -np.inf), np.nextafter(k, np.inf), k - 1e-12 * scale, k + 1e-12 * scale]
+                        else:
+                            k32 = np.float32(k)
+                            pts += [float(np.nextafter(k32, np.float32(-np.inf))), float(np.nextafter(k32, np.float32(np.inf)))]
+                    pts = np.clip(np.asarray(pts, dtype=np.float64), locn[0], locn[-1])
+                    x_t = torch.from_numpy(pts).to(x_dt)
+                    xn = _np(x_t).astype(np.float64)
+                    try:
+                        idx = cx.call("searchsorted", tu.searchsorted, (loc_t.clone(), x_t.clone()))
+                    except Exception as e:
+                        ok(False, "searchsorted", "utils.searchsorted raises on edges / inputs of different float dtypes",
+                           edges=str(e_dt), inputs=str(x_dt), exc=repr(e)[:150])
+                        continue
+                    ref = np.minimum(np.sum(xn[:, None] >= locn[None], axis=-1) - 1, K - 1)
+                    bad = np.nonzero(_np(idx) != ref)[0]
+                    ok(bad.size == 0, "searchsorted", "utils.searchsorted wrong bin (edges and inputs of different float dtypes)",
+                       edges=str(e_dt), inputs=str(x_dt), K=K, x=xn[bad[:3]].tolist(), got=_np(idx)[bad[:3]].tolist(),
+                       ref=ref[bad[:3]].tolist())
+                    r.cell("searchsorted_mixed", str(e_dt), K, scale)
         r.sample({"fn": "searchsorted", "loc": [0, 0.3, 1.0], "x": [0.0, 0.3, 0.5, 1.0],
                   "out": _np(tu.searchsorted(torch.tensor([0, 0.3, 1.0]), torch.tensor([0.0, 0.3, 0.5, 1.0])))})
 
@@ -383,18 +417,39 @@ def run_case(case):
                        "gaussian_kde_log_eval", "utils.gaussian_kde_log_eval != mixture of N(s_i, h^2 I)",
                        N=N, D=D, M=M)
                     r.cell("kde", N, D, M)
+                    # the same call with tensors of the floating dtype that is not the process default: results follow
+                    # the arguments (nothing in the helper may be built in the default dtype)
+                    odt = torch.float32 if dt == torch.float64 else torch.float64
+                    try:
+                        y2 = cx.call("gaussian_kde_log_eval", tu.gaussian_kde_log_eval, (s.to(odt), q.to(odt)))
+                        ok(y2.dtype == odt and tuple(y2.shape) == (M,) and np.allclose(_np(y2), ref, rtol=1e-4, atol=1e-4),
+                           "gaussian_kde_log_eval", "utils.gaussian_kde_log_eval wrong / wrong dtype for non-default-dtype arguments",
+                           N=N, D=D, M=M, dtype=str(odt), got_dtype=str(y2.dtype))
+                    except Exception as e:
+                        ok(False, "gaussian_kde_log_eval", "utils.gaussian_kde_log_eval raises for non-default-dtype arguments",
+                           N=N, D=D, M=M, dtype=str(odt), default=str(dt), exc=repr(e)[:150])
+                    r.cell("kde_other_dtype", N, D, M, str(odt))
         r.sample({"fn": "gaussian_kde_log_eval", "N": 5, "D": 2})
 
     elif g == "typechecks":
         ints = [-(2 ** 40), -7, -1, 0, 1, 2, 3, 4, 6, 8, 12, 16, 1023, 1024, 2 ** 40, 2 ** 40 + 1]
+        # integers around every power of two up to 2**70 and a few far beyond the range of a double: a predicate that goes
+        # through floating point (log2, float division) rounds 2**k +- 1 onto 2**k from k = 49 on
+        for k in list(range(1, 71)) + [100, 127, 128, 1023, 1024, 1030, 2000]:
+            ints += [2 ** k - 1, 2 ** k, 2 ** k + 1, -(2 ** k), 3 * 2 ** k]
         for x in ints:
             ok(tc.is_int(x) is True, "is_int", "typechecks.is_int(int) false", x=x)
             ok(tc.is_bool(x) is False, "is_bool", "typechecks.is_bool(int) true", x=x)
             ok(bool(tc.is_positive_int(x)) == (x > 0), "is_positive_int", "typechecks.is_positive_int wrong", x=x)
             ok(bool(tc.is_nonnegative_int(x)) == (x >= 0), "is_nonnegative_int", "typechecks.is_nonnegative_int wrong", x=x)
             ref = x > 0 and (x & (x - 1)) == 0
-            ok(bool(tc.is_power_of_two(x)) == ref, "is_power_of_two", "typechecks.is_power_of_two wrong", x=x)
-            r.cell("typechecks", "int", x)
+            try:
+                got = bool(tc.is_power_of_two(x))
+            except Exception as e:
+                ok(False, "is_power_of_two", "typechecks.is_power_of_two raises on an int", x=str(x), exc=repr(e)[:100])
+                got = ref
+            ok(got == ref, "is_power_of_two", "typechecks.is_power_of_two wrong", x=str(x), bits=x.bit_length())
+            r.cell("typechecks", "int", min(abs(x), 2 ** 12), x.bit_length())
         nonints = [1.0, 2.0, 0.0, -1.5, float("nan"), float("inf"), "3", "", None, [1], (2,), {"a": 1},
                    np.float64(2.0), np.float32(4.0), torch.tensor(2.0), 1 + 0j, b"2"]
         for x in nonints:
